@@ -51,6 +51,8 @@ def _reducer_closure(repo) -> dict[str, ast.AST]:
 
 def run(chk) -> None:
     repo = chk.repo
+    from ._engine import engine_view
+    chk.extra["helpers_inlined"] = engine_view(repo)
     m = repo.module(CL)
     methods = repo.methods(RUNNER)
 
